@@ -25,11 +25,19 @@ Local Open Scope N_scope.
 
 (* ---------------------------------------------------------------- encoders *)
 
+(* Low bits / remaining bits by mask and shift (linear time in the kernel's evaluators; [N.div]
+   is quadratic, which matters for integers of thousands of bits). Proofs/Zarith_proofs.v shows
+   lo7 n = n mod 128, hi7 n = n / 128, lo6 n = n mod 64, hi6 n = n / 64. *)
+Definition lo7 (n : N) : N := N.land n 127.
+Definition hi7 (n : N) : N := N.shiftr n 7.
+Definition lo6 (n : N) : N := N.land n 63.
+Definition hi6 (n : N) : N := N.shiftr n 6.
+
 (* fuel = number of bits of [n]; each step drops 7 bits (see enc_nat_eqn) *)
 Fixpoint enc_nat_fuel (fuel : nat) (n : N) : bytes :=
   match fuel with
   | O => [b8 n]
-  | S f => if n <? 128 then [b8 n] else b8 (128 + n mod 128) :: enc_nat_fuel f (n / 128)
+  | S f => if n <? 128 then [b8 n] else b8 (128 + lo7 n) :: enc_nat_fuel f (hi7 n)
   end.
 
 Definition enc_nat (n : N) : bytes := enc_nat_fuel (N.size_nat n) n.
@@ -38,7 +46,7 @@ Definition enc_int (z : Z) : bytes :=
   let a := Z.abs_N z in
   let sign := if (z <? 0)%Z then 64 else 0 in
   if a <? 64 then [b8 (sign + a)]
-  else b8 (128 + sign + a mod 64) :: enc_nat (a / 64).
+  else b8 (128 + sign + lo6 a) :: enc_nat (hi6 a).
 
 (* ---------------------------------------------------------------- decoders *)
 
